@@ -8,10 +8,13 @@ scalars, one-dimensional arrays of at most ten items as lists, every other array
 (dtype, shape, values), containers element-wise -/
 def canon : PV → PV
   | .npScalar i => .int i
-  | .arr dtype shape items =>
+  | .arr dtype shape strides off mem =>
+    -- same dtype, same shape, C-contiguous, holding the elements in row-major order
     match shape with
-    | [n] => if n ≤ 10 && !isComplexDtype dtype then .list (ofInts items) else .arr dtype shape items
-    | _ => .arr dtype shape items
+    | [n] =>
+      if n ≤ 10 && !isComplexDtype dtype then .list (ofInts (gather mem shape strides off))
+      else .arr dtype shape (cStrides shape) 0 (gather mem shape strides off)
+    | _ => .arr dtype shape (cStrides shape) 0 (gather mem shape strides off)
   | .list l => .list (canonList l)
   | .dict kv => .dict (canonDict kv)
   | v => v
@@ -24,7 +27,8 @@ def canonDict : PVDict → PVDict
 end
 
 mutual
-/-- values in scope: no user dictionary uses the reserved key `__ndarray__` -/
+/-- values in scope: no user dictionary uses the reserved keys `__ndarray__`, `__qbytearray__` (the
+object hook would take such a dictionary for an encoded array / Qt byte array, _misc.py:67-73) -/
 def WF : PV → Prop
   | .list l => WFList l
   | .dict kv => WFDict kv
@@ -34,7 +38,7 @@ def WFList : PVList → Prop
   | .cons h t => WF h ∧ WFList t
 def WFDict : PVDict → Prop
   | .nil => True
-  | .cons k v t => k ≠ "__ndarray__" ∧ WF v ∧ WFDict t
+  | .cons k v t => k ≠ "__ndarray__" ∧ k ≠ "__qbytearray__" ∧ WF v ∧ WFDict t
 end
 
 /-- top-level keys in scope: integers, and strings that are not the decimal form of an integer -/
@@ -47,7 +51,18 @@ def IntStrOK : Prop := ∀ i : Int, isIntString (intToStr i) = true ∧ parseInt
 
 /-- the rows `read_tsv` must return: per written row, its (field, value) pairs in header order,
 absent fields omitted -/
-def expectedRows (fields : List String) (rows : List (List (String × Cell))) : List (List (String × Cell)) :=
+def expectedRows {γ : Type} (fields : List String) (rows : List (List (String × γ))) : List (List (String × γ)) :=
   rows.map fun r => fields.filterMap fun f => (r.lookup f).map fun c => (f, c)
+
+/-- a multi-index addresses an element of an array of this shape -/
+def IdxOK : List Nat → List Nat → Prop
+  | [], [] => True
+  | n :: shape, i :: idx => i < n ∧ IdxOK shape idx
+  | _, _ => False
+
+/-- position of a multi-index in the row-major enumeration -/
+def rank : List Nat → List Nat → Nat
+  | _ :: shape, i :: idx => i * size shape + rank shape idx
+  | _, _ => 0
 
 end PhyVerif.C18
